@@ -39,8 +39,32 @@ def base_assume(ex):
     ex.st.ghost["generic"] = [G1, G2]
 
 
-def signal_array(ex):
-    return ex.st.alloc(HArr((R, Cc), VDtype("float64"), lambda ix: VFloat(SIG(z_int(ix[0]), z_int(ix[1])))))
+def signal_array(ex, any_float=False):
+    """The signal frame; with any_float its type is any of the types a Signal container accepts (float16 / float32 / float64)."""
+    dt = VDtype("float64")
+    if any_float:
+        d = z3.Int("signal_dtype")
+        ex.st.assume(z3.Or(*[d == arrays.dt_code(n) for n in ("float16", "float32", "float64")]))
+        dt = VDtype(d)
+    return ex.st.alloc(HArr((R, Cc), dt, lambda ix: VFloat(SIG(z_int(ix[0]), z_int(ix[1])))))
+
+
+def record_final_cast(cfg):
+    """The SAR converters end with `<accumulated codes>.astype(<image type>)`: record the type the codes were accumulated in."""
+    def astype_rec(ex, f, args, kwargs, fr):
+        src = f.self_val if getattr(f, "self_val", None) is not None else args[0]
+        if ex.is_arr(src):
+            ex.__dict__.setdefault("cast_from", []).append(ex.st.cell(src).dtype)
+        return ex.lib.call(ex, f, args, kwargs, fr)
+    cfg.lib_overrides["ndarray.astype"] = astype_rec
+    return cfg
+
+
+def accumulated_in_binary64(u, p, tag, w, rp):
+    """bit weights up to 2**(b-1) are summed before the cast: the sum is exact only in binary64 (b <= 53), whatever the frame's own type."""
+    src = p.ex.__dict__.get("cast_from", [])
+    ok = bool(src) and all(is_conc(d.v) and d.v == "float64" for d in src[-1:])
+    u.oblige(p, f"{tag}.codes_accumulated_in_binary64", ok, dict(w, accumulator=str([str(d.v) for d in src[-1:]])), rp)
 
 
 def prove_rnd(u: Unit, p: Path, name, hyps, goal, witness=None, replay=None, mono_only=False):
@@ -243,14 +267,14 @@ def sar_post(u: Unit, p: Path, tag, w, rp):
 def sar_unit(u: Unit):
     fi = u.fn(RE + "sar_adc.py::apply_sar_adc")
     u.fn("pyxel/util/misc.py::get_dtype")
-    cfg = Cfg("real")
+    cfg = record_final_cast(Cfg("real"))
     cfg.loops[(fi.qualname, 0)] = sar_loop_spec("i in np.arange(adc_bits)", False)
 
     def setup(ex):
         base_assume(ex)
         ex.st.assume(z3.And(B >= 4, B <= 64, HI > 0))
         pow2_facts(ex.st, z3.IntVal(0))
-        return [], {"signal_2d": signal_array(ex), "num_rows": VInt(R), "num_cols": VInt(Cc), "min_volt": VFloat(LO),
+        return [], {"signal_2d": signal_array(ex, any_float=True), "num_rows": VInt(R), "num_cols": VInt(Cc), "min_volt": VFloat(LO),
                     "max_volt": VFloat(HI), "adc_bits": VInt(B)}
     w = {"vmax": HI, "v1": SIG(*G1), "v2": SIG(*G2), "bits": B}
     u.internal_witness, u.internal_replay = w, sar_replay()
@@ -260,6 +284,7 @@ def sar_unit(u: Unit):
             u.oblige(p, "sar.returns_array", False, w, sar_replay())
             continue
         sar_post(u, p, "sar", w, sar_replay())
+        accumulated_in_binary64(u, p, "sar", w, SAR_MODEL_REPLAY)
     u.cover("sar.cover", ps, lambda p: p.kind == "return")
 
 
@@ -268,7 +293,7 @@ def sar_noise_unit(u: Unit):
     """Zero noise (all strengths and noises 0): the noisy variant computes the same specification
     function as the plain converter, hence the same codes (transitivity over the two contracts)."""
     fi = u.fn(RE + "sar_adc_with_noise.py::apply_sar_adc_with_noise")
-    cfg = Cfg("real")
+    cfg = record_final_cast(Cfg("real"))
     cfg.loops[(fi.qualname, 0)] = sar_loop_spec("i in np.arange(adc_bits)", True)
 
     def setup(ex):
@@ -276,7 +301,7 @@ def sar_noise_unit(u: Unit):
         ex.st.assume(z3.And(B >= 4, B <= 64, HI > 0))
         pow2_facts(ex.st, z3.IntVal(0))
         zeros = lambda: ex.st.alloc(HArr((B,), VDtype("float64"), lambda ix: VFloat(0.0)))
-        return [], {"signal_2d": signal_array(ex), "num_rows": VInt(R), "num_cols": VInt(Cc), "strengths": zeros(), "noises": zeros(),
+        return [], {"signal_2d": signal_array(ex, any_float=True), "num_rows": VInt(R), "num_cols": VInt(Cc), "strengths": zeros(), "noises": zeros(),
                     "max_volt": VFloat(HI), "adc_bits": VInt(B)}
     w = {"vmax": HI, "v1": SIG(*G1), "v2": SIG(*G2), "bits": B}
     u.internal_witness, u.internal_replay = w, sar_replay(True)
@@ -286,6 +311,7 @@ def sar_noise_unit(u: Unit):
             u.oblige(p, "sar_noise.returns_array", False, w, sar_replay(True))
             continue
         sar_post(u, p, "sar_noise.zero_noise", w, sar_replay(True))
+        accumulated_in_binary64(u, p, "sar_noise", w, SAR_MODEL_REPLAY)
     u.cover("sar_noise.cover", ps, lambda p: p.kind == "return")
 
 
@@ -377,6 +403,15 @@ for bits, rng in ((8, (0.0, 5.0)), (12, (0.0, 3.3)), (16, (0.0, 10.0)), (10, (1.
     exp = np.minimum(np.floor(sig / rng[1] * 2 ** bits), 2 ** bits - 1)
     if not np.array_equal(a, b) or not np.array_equal(a.astype(float), exp) or not np.array_equal(d1.signal.array, sig):
         VIOLATED, DETAIL = True, f'{bits} bits, range {rng}: plain {a[0].tolist()} zero-noise {b[0].tolist()} expected {exp[0].tolist()}'; break
+    for ft, b2 in ((np.float32, 28), (np.float16, 12)):          # frames of the narrower types a Signal accepts
+        e1 = VP.detector(adc_bit_resolution=b2, adc_voltage_range=(0.0, 4.0)); e2 = VP.detector(adc_bit_resolution=b2, adc_voltage_range=(0.0, 4.0))
+        s2 = np.array([[0.0, 1.0, 3.0, 4.0], [4.0, 2.0, 0.5, 8.0], [3.5, 3.75, 1e3, 0.25]], dtype=ft)
+        e1.signal.array = s2.copy(); e2.signal.array = s2.copy()
+        sar_adc(e1); sar_adc_with_noise(e2, strengths=[0.0] * b2, noises=[0.0] * b2)
+        full = 2 ** b2 - 1
+        if int(e1.image.array.max()) > full or int(e2.image.array.max()) > full or not np.array_equal(e1.image.array, e2.image.array) or int(e2.image.array[0, 3]) != full:
+            VIOLATED, DETAIL = True, f'{b2} bits on a {np.dtype(ft).name} frame: plain max {int(e1.image.array.max())}, zero-noise max {int(e2.image.array.max())}, full scale {full}'; break
+    if VIOLATED: break
     for bad in (dict(strengths=[0.0] * (bits - 1), noises=[0.0] * bits), dict(strengths=[0.0] * bits, noises=[0.0] * (bits + 1)), dict(strengths=[0.0] * bits, noises=[0.0] * (bits - 1))):
         try:
             sar_adc_with_noise(d2, **bad); VIOLATED, DETAIL = True, 'a noise vector of the wrong length was accepted'
